@@ -12,6 +12,7 @@ From Coq Require Import List Arith Bool.
 Import ListNotations.
 From ZI Require Import Spec.C3 Proofs.Ro Model.Ro Model.Adapter Model.Lookup Model.Super Spec.Super Proofs.Super.
 From ZI Require Import Model.SuperPrims Gen.SuperKernel Proofs.SuperKernel.
+From ZI Require Import Model.SuperCPrims Gen.SuperC Proofs.SuperC.
 
 (* the modelled MRO is the textbook C3 linearisation of the class graph *)
 Theorem C19_mro_is_c3 : forall E, env_ok E = true -> forall T,
@@ -137,9 +138,12 @@ Proof. exact adapter_selected_lemma. Qed.
 Print Assumptions C19_super_adapter_selected.
 
 (* meaning of "the content of implementedBy(c)": Interface, plus whatever a contributing class
-   (c, or a class reached through __bases__ while the classes on the way still inherit) declares,
-   plus everything those interfaces extend *)
+   (c, or a class reached through __bases__ while the classes on the way still inherit, or through a
+   declared specification ``classImplements(c, implementedBy(b))``) declares, plus everything those
+   interfaces extend.  The hypothesis (declared specifications point to earlier classes of the world)
+   holds after every history: C19_histories_keep_specs_acyclic. *)
 Theorem C19_flat_semantics : forall E d c i, env_ok E = true ->
+  (forall c0 b, In b (dspecs d c0) -> b < c0 /\ c0 < length (e_cg E)) ->
   (In i (flat E d c) <->
    i = iroot \/ exists c' q, Contributes E d c c' /\ In q (declared d c') /\ Reach (bases (e_ig E)) q i).
 Proof. exact flat_semantics_thm. Qed.
@@ -148,11 +152,65 @@ Print Assumptions C19_flat_semantics.
 (* Implements.changed: a change of implementedBy(c) deletes the _super_cache of exactly the
    classes that hear about it (an *only* class below c does not, and keeps its cache) *)
 Theorem C19_notified_exactly_dependents : forall E st c T, env_ok E = true ->
+  (forall c0 b, In b (dspecs (st_decl st) c0) -> b < c0 /\ c0 < length (e_cg E)) ->
   (In T (notified E (st_decl st) (cfuel E) c) <-> Hears E (st_decl st) T c) /\
   (Hears E (st_decl st) T c -> nget (st_cache (notify E st c)) T = None) /\
   (~ Hears E (st_decl st) T c -> nget (st_cache (notify E st c)) T = nget (st_cache st) T).
 Proof. exact notified_thm. Qed.
 Print Assumptions C19_notified_exactly_dependents.
+
+Theorem C19_histories_keep_specs_acyclic : forall uc E ops, env_ok E = true ->
+  forall c b, In b (dspecs (st_decl (final uc E ops)) c) -> b < c /\ c < length (e_cg E).
+Proof. exact final_specs_ok. Qed.
+Print Assumptions C19_histories_keep_specs_acyclic.
+
+(* ---- class-bound proxies super(C, T) (second argument a class: __self_class__ = __self__ = T).
+   implementedBy reads sup.__self_class__'s MRO, so the proxy reports what INSTANCES of the classes
+   after C in T's own MRO implement (never what the class object T itself provides): it is the very
+   same cache entry and specification object as for super(C, ob) with type(ob) = T ... *)
+Theorem C19_class_bound_same_as_instance_bound : forall E uc uc' st C T j, obj_cls E j = T ->
+  providedBy uc E st (ASuperC C T) = providedBy uc' E st (ASuper C j) /\
+  implementedBy uc E st (ASuperC C T) = implementedBy uc' E st (ASuper C j).
+Proof. exact class_bound_thm. Qed.
+Print Assumptions C19_class_bound_same_as_instance_bound.
+
+(* ... and, whether or not T has an instance: exactly the contents of the classes after C *)
+Theorem C19_class_bound_spec_exact : forall uc E ops C T mro l1 l2,
+  env_ok E = true -> mro_of E T = Some mro -> mro = l1 ++ C :: l2 -> l2 <> [] ->
+  exists st' s, providedBy uc E (final uc E ops) (ASuperC C T) = (st', Some (RSynth s)) /\
+    implementedBy uc E (final uc E ops) (ASuperC C T) = (st', Some (RSynth s)) /\
+    st_decl st' = st_decl (final uc E ops) /\
+    forall i, In i (flat_ref E st' (RSynth s)) <->
+              exists c, In c l2 /\ In i (flat E (st_decl (final uc E ops)) c).
+Proof. exact class_bound_spec_exact_lemma. Qed.
+Print Assumptions C19_class_bound_spec_exact.
+
+(* adaptation of a class-bound proxy: same selection, the factory receives the class object T
+   (identity 2 + T) *)
+Theorem C19_class_bound_adapter_selected : forall uc E ops v C T p n mro l1 l2,
+  env_ok E = true -> mro_of E T = Some mro -> mro = l1 ++ C :: l2 -> l2 <> [] ->
+  let st := final uc E ops in
+  exists st' r, adapt uc E st v [ASuperC C T] p n = (st', Some r) /\
+    (forall x, r = RVal x ->
+       exists reg q, In reg (st_regs st) /\ r_name reg = n /\ r_req reg = [q] /\
+                     (exists c, In c l2 /\ In q (flat E (st_decl st) c)) /\
+                     i_isOrExtends E (r_prov reg) p = true /\
+                     x = vid (r_val reg) * 1000 + cls_ident T mod 10) /\
+    (r = RDefault ->
+       forall reg q, In reg (st_regs st) -> r_name reg = n -> r_req reg = [q] ->
+                     i_isOrExtends E (r_prov reg) p = true ->
+                     ~ exists c, In c l2 /\ In q (flat E (st_decl st) c)) /\
+    r <> RValueError.
+Proof. exact adapter_selected_class_bound_lemma. Qed.
+Print Assumptions C19_class_bound_adapter_selected.
+
+(* an unbound proxy super(C) (no object at all): the empty declaration, state untouched *)
+Theorem C19_unbound_proxy_is_empty : forall E uc st C,
+  providedBy uc E st (AUnbound C) = (st, Some REmpty) /\
+  implementedBy uc E st (AUnbound C) = (st, Some REmpty) /\
+  flat_ref E st REmpty = [iroot].
+Proof. exact unbound_thm. Qed.
+Print Assumptions C19_unbound_proxy_is_empty.
 
 (* ---- the kernel regenerated from the source TEXT on this run (Gen/SuperKernel.v, written by the
    fail-closed translator harness/translate/super_kernel.py from declarations.py and adapter.py) IS the
@@ -196,6 +254,26 @@ Theorem C19_generated_queryMultiAdapter_eq_model :
   gen_queryMultiAdapter ul fcall c os p n = queryMultiAdapter ul fcall c os p n.
 Proof. exact gen_queryMultiAdapter_eq. Qed.
 Print Assumptions C19_generated_queryMultiAdapter_eq_model.
+
+(* ---- the C twins.  Gen/SuperC.v holds what harness/translate/super_c.py matched in the C text on this
+   run (which object is tested against which type, what is called with what, which attribute of which
+   object is read and what the factory is called with); its interpretation (Model/SuperCPrims.v) IS the
+   model of the C entry points and of adapter_hook. *)
+Theorem C19_generated_c_implementedBy_eq_model : forall E st a,
+  interp_c_implementedBy gen_c_implementedBy_branch gen_c_fallback E st a = c_implementedBy E st a.
+Proof. exact gen_c_implementedBy_eq. Qed.
+Print Assumptions C19_generated_c_implementedBy_eq_model.
+
+Theorem C19_generated_c_providedBy_eq_model : forall E st a,
+  interp_c_providedBy gen_c_providedBy_branch gen_c_implementedBy_branch gen_c_fallback E st a = c_providedBy E st a.
+Proof. exact gen_c_providedBy_eq. Qed.
+Print Assumptions C19_generated_c_providedBy_eq_model.
+
+Theorem C19_generated_c_adapter_hook_eq_model :
+  forall (ul : list spec -> spec -> name -> option value) (fcall : value -> list nat -> option nat) c p o n,
+  interp_c_hook gen_c_adapter_hook ul fcall c p o n = adapter_hook ul fcall c p o n.
+Proof. exact gen_c_adapter_hook_eq. Qed.
+Print Assumptions C19_generated_c_adapter_hook_eq_model.
 
 (* ---- non-vacuity: a diamond with an undeclared mixin below an *only* class.
    interfaces I1, I2, I3(I2), I4; classes A=1 (I1), M=2 (mixin, nothing declared), B(A)=3 (I2),
@@ -279,3 +357,23 @@ Example C19_witness_generated :
   map sy_bases (st_synth (fst (gen_implementedBy_super ex_E st (mkPS 3 5 0)))) = [[4; 1; 2; 0]] /\
   gen_next_super_class ex_E (mkPS 3 5 0) = Some 4.
 Proof. vm_compute. repeat split; reflexivity. Qed.
+
+(* class-bound and unbound proxies and a declared class specification on the witness world: Cc (4)
+   declares implementedBy(B) (3) - B was created before Cc - so super(D, D) sees B's I2 twice over;
+   super(B, D) is the very specification of super(B, d); adapting it hands the class object D
+   (identity 2 + 5) to the factory; super(B) provides nothing *)
+Example C19_witness_class_bound :
+  let ops := [OImplements 1 [1]; OImplements 3 [2]; OOnly 5 [4]; OImplSpec 4 3; OImplSpec 3 4;
+              ORegister (mkR [2] 1 1 (mkV 7 7));
+              OProvidedBy (ASuper 3 0); OProvidedBy (ASuperC 3 5); OImplementedBy (ASuperC 1 4);
+              OAdapt ViaAdapterHook [ASuperC 3 5] 1 1; OProvidedBy (AUnbound 3)] in
+  run true ex_E init ops =
+    [[]; []; []; []; []; []; [1; 0; 0; 0; 1; 2]; [1; 0; 0; 0; 1; 2]; [1; 0; 1; 0]; [3; 7007]; [1; 3; 0; 0]] /\
+  dspecs (st_decl (final true ex_E ops)) 4 = [3] /\ dspecs (st_decl (final true ex_E ops)) 3 = [] /\
+  Hears ex_E (st_decl (final true ex_E ops)) 4 3 /\
+  mro_of ex_E 4 = Some ([4] ++ 1 :: [2; 0]).
+Proof.
+  split; [vm_compute; reflexivity|]. split; [vm_compute; reflexivity|]. split; [vm_compute; reflexivity|].
+  split; [|vm_compute; reflexivity].
+  eapply Hears_decl with (y := 4); [vm_compute; auto 10|vm_compute; auto|constructor].
+Qed.
